@@ -480,6 +480,53 @@ theorem session_answer_extracts_prefix_partial (cfg : Config) (b : BSrv) (hr : C
   exact he
 
 open Iodine.Server in
+/-- **session_answer_extracts_prefix** (C09 for whole sessions).  For every configuration that passes `main()`'s checks
+(`C10.ConfigOk`), every state reachable from start-up through arbitrary byte-valued inputs with legal decoded questions
+(`C10.WfReachable`), every further such input and every datagram `tx dst bytes` the iteration sends: it encodes the payload `data` of
+an `ans` event of that iteration, and EITHER `data` is the single byte "x" — the deliberately illegal answer to a recognised
+duplicate, outside C09's quantifier (payloads of at least 2 bytes) — OR, for every client buffer size `B` in 4096..65536, every codec
+byte `dn` the session uses and whatever the rotating pseudo-TLD state, `read_dns_withq` does not fault on `bytes` and extracts a
+prefix of `data`: all of it iff `fits B ty dn |data|`, a proper prefix otherwise; never other bytes. -/
+theorem session_answer_extracts_prefix (cfg : Config) (hc : C10.ConfigOk cfg) (b : BSrv) (hr : C10.WfReachable cfg b)
+    (inp : BInput) (now' : Nat) (hl : C10.LegalDgram inp) (hb : C10.ByteDgram inp) (dst : Addr) (bytes : List Nat)
+    (htx : BEvent.tx dst bytes ∈ (biteration b inp now').2.1) :
+    ∃ id ty dn name data tag,
+      Event.ans dst id ty dn name data tag ∈ out b.srv ⟨toInput b.srv inp, now'⟩ ∧
+      (data = [120] ∨
+        ∀ B, 4096 ≤ B ∧ B ≤ 65536 →
+          ∃ e, (readDnsWithq B bytes).map (·.buf) = .ok e ∧ e <+: data ∧
+            (fits B ty dn data.length = true → e = data) ∧ (fits B ty dn data.length = false → e.length < data.length)) := by
+  have hinv := C10.legalReachable_inv (C10.wfReachable_legal hr)
+  obtain ⟨pr, hpr, hbm⟩ := BytesL.mem_encodeEvents htx
+  obtain ⟨hmem, htxs, _, _⟩ := (BytesL.encodeEventsL_spec _ _ _ _ hinv.td).2 pr hpr
+  obtain ⟨td0, id, ty, dn, name, data, tag, htd0, hev, hw⟩ := htxs dst bytes hbm
+  rw [hev] at hmem
+  have hgood := (BytesL.binv_step hinv inp now' ((C10.legalDgram_iff inp).1 hl)).2 dst id ty dn name data tag hmem
+  obtain ⟨d1, d2, d3⟩ := C10.session_payloads_are_bytes cfg hc b hr inp now' hl hb dst id ty dn name data tag hmem
+  refine ⟨id, ty, dn, name, data, tag, hmem, ?_⟩
+  rcases d2 with d2 | d2
+  · right
+    intro B hB
+    have hty : ty ∈ QTypes := by
+      have := hgood.2.2
+      unfold BytesL.TunnelType at this
+      simp only [QTypes, List.mem_cons, List.not_mem_nil, or_false]
+      exact this
+    have S : Setting B td0 id ty name data := ⟨hB, htd0, hgood.1, hty, hgood.2.1, ⟨d2, d3⟩, d1⟩
+    obtain ⟨e, hee, hpre, hfit, hnfit⟩ := extract_spec S dn
+    refine ⟨e, ?_, hpre, hfit, hnfit⟩
+    unfold extract answer at hee
+    rw [hw] at hee
+    exact hee
+  · exact Or.inl d2
+
+open Iodine.Server in
+example (dst : Addr) (bytes : List Nat)
+    (h : BEvent.tx dst bytes ∈ (biteration (bstart C10.exCfgS []) (.dgram C10.exSrc C10.exDgramV) 1000).2.1) :=
+  session_answer_extracts_prefix C10.exCfgS (by decide +kernel) _ (.init []) (.dgram C10.exSrc C10.exDgramV) 1000
+    (by decide +kernel) (by decide +kernel) dst bytes h
+
+open Iodine.Server in
 /-- non-vacuity: the VNAK answer (9 bytes) to the version request of Props/C10Session.lean, read by the client with its
 handshake buffer: the payload arrives exactly -/
 def exExtractOk : Bool :=
